@@ -30,7 +30,7 @@ from ..cfg import must_facts
 from ..rules import call_sites, event_facts, tainted_names
 from ..mutate import mutate, remove_stmts, replace_expr, replace_stmt, parse_stmt, parse_expr
 from ..model import AnalysisError
-from ..x_taint import flow_taint, expr_tainted, regex_guard, regex_cleaner, guards_in, detects_all
+from ..x_taint import flow_taint, expr_tainted, regex_guard, regex_cleaner, guards_in, detects_all, HelperSummaries
 from ..x_cookie import analyse as analyse_cookie, text_params
 
 TECHNIQUE = "flow-sensitive taint over the CFG with regex guards decided by automaton inclusion; dominance/kill facts for the final CR/LF guard"
@@ -78,7 +78,8 @@ def check_value_chars(ck):
     if len(ps) != 1:
         raise AnalysisError("_convert_header_value signature changed")
     gs = guards_in(ck.repo, fi)
-    ck.floor("C07.value-chars", len(gs), 1, "regex guards in _convert_header_value")
+    if not gs:
+        ck.note("_convert_header_value: no regex guard applied directly to a value was recognised")
     for n, g in gs:
         adm = g.admitted(FORBIDDEN) if g.truthy_means_matched or True else []
         # the guard must be usable: one of its edges proves absence of NUL/CR/LF
@@ -87,18 +88,21 @@ def check_value_chars(ck):
         if not ok:
             why = " (language in %s mode admits %s)" % (g.mode, _fmt(adm) or _fmt(g.undetected(FORBIDDEN)))
         ck.ob("C07.value-chars", fi, n.ast, ok, "the header value regex, as used (%s), proves absence of NUL/CR/LF%s" % (g.mode, why))
-    states = flow_taint(fi, ps, sanitizers=("format_timestamp",), clean_on_edge=regex_cleaner(ck.repo, fi, FORBIDDEN, _nontext_cleaner))
+    hs = HelperSummaries(ck.repo, fi, lambda h: regex_cleaner(ck.repo, h, FORBIDDEN, _nontext_cleaner), ("format_timestamp",))
+    states = flow_taint(fi, ps, sanitizers=("format_timestamp",), clean_on_edge=hs.cleaner(regex_cleaner(ck.repo, fi, FORBIDDEN, _nontext_cleaner)), on_node=hs.on_node, expr_hook=hs.expr_hook)
     rets = fi.cfg.stmt_nodes(lambda n: n.kind == "stmt" and isinstance(n.ast, ast.Return) and n.ast.value is not None)
     ck.floor("C07.value-chars", len(rets), 2, "returns in _convert_header_value")
     for r in rets:
-        bad = any(expr_tainted(r.ast.value, t, ("format_timestamp",)) for t in states.get(r.id, []))
+        bad = any(expr_tainted(r.ast.value, t, ("format_timestamp",), (), hs.expr_hook) for t in states.get(r.id, []))
         ck.ob("C07.value-chars", fi, r.ast, not bad, "every value returned is character-checked (or converted from a non-text type)")
 
 
 def _header_writers(ck):
     """(fi, cfg node, kind, name expr, value expr) for every direct write to self._headers in RequestHandler."""
     out = []
-    for fi in ck.repo.methods(WEB, RH):
+    for fi in list(ck.repo.module(WEB).funcs.values()):
+        if "self" not in fi.params()[:1] or not any(q.dotted(x) == "self._headers" for x in q.walk_body(fi.node) if isinstance(x, ast.Attribute)):
+            continue
         for node in fi.cfg.stmt_nodes(lambda n: n.kind == "stmt"):
             st = node.ast
             if isinstance(st, (ast.Assign, ast.AugAssign)):
@@ -177,6 +181,20 @@ def _final_guard(ck):
         )
         facts = event_facts(fi, {"checked": lambda n, fn=fn: n.id == fn.id}, {"checked": mut}, cond_facts=False)
         derived = tainted_names(fi, [lst])
+        # the list that is tested must be the very list the header block is joined from (not one of its contributors)
+        for wn, c in writes:
+            a = q.arg(c, 0)
+            joined = set()
+            names = set(q.names_in(a))
+            for st in q.walk_body(fi.node):
+                if isinstance(st, (ast.Assign, ast.AugAssign)) and (q.assigned_paths(st) & names):
+                    for j in ast.walk(st.value):
+                        if isinstance(j, ast.Call) and q.call_attr(j) == "join" and len(j.args) == 1 and isinstance(j.args[0], ast.Name):
+                            joined.add(j.args[0].id)
+            if not joined:
+                raise AnalysisError("write_headers: cannot find the list the header block is joined from (unknown idiom)")
+            ck.ob("C07.final-guard", fi, fn.ast.iter, joined == {lst}, "the list that is tested ('%s') is the list the header block is joined from (%s): start line and every header line are covered" % (lst, ", ".join(sorted(joined))),
+                  construct="guard iterates %s but the block is joined from %s" % ("the joined list" if joined == {lst} else "another list", "it" if joined == {lst} else "a list with more lines"))
         for wn, c in writes:
             a = q.arg(c, 0)
             ck.ob("C07.final-guard", fi, c, ("@checked", True) in facts[wn.id], "every line was tested after the last modification of '%s' and before stream.write" % lst)
@@ -206,8 +224,9 @@ def check_names(ck, writers, detected_by_final):
         ps = [p for p in fi.params() if p != "self"]
         if not ps:
             continue
-        states = flow_taint(fi, ps, clean_on_edge=regex_cleaner(ck.repo, fi, residual)) if residual else {}
-        tainted_here = bool(residual) and any(expr_tainted(name, t) for t in states.get(node.id, []))
+        hs = HelperSummaries(ck.repo, fi, lambda h: regex_cleaner(ck.repo, h, residual))
+        states = flow_taint(fi, ps, clean_on_edge=hs.cleaner(regex_cleaner(ck.repo, fi, residual)), on_node=hs.on_node, expr_hook=hs.expr_hook) if residual else {}
+        tainted_here = bool(residual) and any(expr_tainted(name, t, (), (), hs.expr_hook) for t in states.get(node.id, []))
         if not expr_tainted(name, set(ps)):
             continue  # constant / framework-chosen name
         n += 1
@@ -241,10 +260,11 @@ def check_reason(ck):
         if not stores:
             continue
         ps = text_params(fi)
-        states = flow_taint(fi, ps, clean_on_edge=regex_cleaner(ck.repo, fi, FORBIDDEN))
+        hs = HelperSummaries(ck.repo, fi, lambda h: regex_cleaner(ck.repo, h, FORBIDDEN))
+        states = flow_taint(fi, ps, clean_on_edge=hs.cleaner(regex_cleaner(ck.repo, fi, FORBIDDEN)), on_node=hs.on_node, expr_hook=hs.expr_hook)
         for s in stores:
             n_store += 1
-            bad = any(expr_tainted(s.ast.value, t) for t in states.get(s.id, []))
+            bad = any(expr_tainted(s.ast.value, t, (), (), hs.expr_hook) for t in states.get(s.id, []))
             ck.ob("C07.reason", fi, s.ast, not bad, "a caller-supplied reason phrase is stored only after a regex check excluding NUL/CR/LF (or replaced by a constant)")
         for n, g in guards_in(ck.repo, fi):
             n_guard += 1
@@ -395,6 +415,31 @@ MUTANTS = [
     ("final guard uses match (only the start of the line)", _in(H1, "HTTP1Connection.write_headers", _mode("search", "match", "CR_OR_LF_RE")), "C07.final-guard"),
     ("final guard skips the start line", _in(H1, "HTTP1Connection.write_headers", replace_stmt(lambda st: isinstance(st, ast.For) and "CR_OR_LF_RE" in _u(st), lambda st: [ast.For(target=st.target, iter=parse_expr("lines[1:]"), body=st.body, orelse=[])])), "C07.final-guard"),
     ("header lines added after the final guard ran", _in(H1, "HTTP1Connection.write_headers", _swap_guard_and_extend), "C07.final-guard"),
+    ("guard folded into the header-line encoding (status line no longer scanned)", _in(H1, "HTTP1Connection.write_headers", lambda root: _guard_on_header_lines_only(root)), "C07.final-guard"),
+    ("reason phrase validated stripped but stored raw", _in(WEB, RH + ".set_status", replace_expr(lambda n: isinstance(n, ast.Call) and q.call_attr(n) == "fullmatch" and "reason_phrase" in _u(n), lambda n: ast.Call(func=n.func, args=[parse_expr("reason.strip()")], keywords=[]))), "C07.reason"),
+    ("header value validated stripped but returned raw", _in(WEB, RH + "._convert_header_value", replace_expr(lambda n: isinstance(n, ast.Call) and q.call_attr(n) == "fullmatch", lambda n: ast.Call(func=n.func, args=[parse_expr("retval.strip()")], keywords=[]))), "C07.value-chars"),
+    ("header value check applied to the first 4096 characters only", _in(WEB, RH + "._convert_header_value", replace_expr(lambda n: isinstance(n, ast.Call) and q.call_attr(n) == "fullmatch", lambda n: ast.Call(func=n.func, args=[parse_expr("retval[:4096]")], keywords=[]))), "C07.value-chars"),
     ("final guard only logs", _in(H1, "HTTP1Connection.write_headers", _guard_logs_only), "C07.final-guard"),
     ("send_error stores the reason itself", _in(WEB, RH + ".send_error", replace_stmt(lambda st: "self.set_status(status_code, reason=reason)" in _u(st), lambda st: [parse_stmt("self._status_code = status_code"), parse_stmt("self._reason = reason or 'Unknown'")])), "C07.reason"),
 ]
+
+
+def _guard_on_header_lines_only(root):
+    """encoded = [..header lines..]; test encoded; lines.extend(encoded)  (the start line escapes the test)"""
+    for node in ast.walk(root):
+        body = getattr(node, "body", None)
+        if isinstance(body, list):
+            for i, st in enumerate(body):
+                if isinstance(st, ast.Expr) and ".extend(" in _u(st) and isinstance(st.value, ast.Call) and isinstance(st.value.args[0], ast.GeneratorExp):
+                    for j in range(i + 1, len(body)):
+                        if isinstance(body[j], ast.For) and "CR_OR_LF_RE" in _u(body[j]):
+                            gen = st.value.args[0]
+                            lst = _u(st.value.func.value)
+                            loop = body[j]
+                            loop.iter = ast.Name(id="encoded", ctx=ast.Load())
+                            new = [ast.Assign(targets=[ast.Name(id="encoded", ctx=ast.Store())], value=ast.ListComp(elt=gen.elt, generators=gen.generators), lineno=st.lineno),
+                                   loop, parse_stmt("%s.extend(encoded)" % lst)]
+                            del body[j]
+                            body[i:i + 1] = new
+                            return True
+    return False
